@@ -75,7 +75,7 @@ def replay(rp):
     return 1
 
 
-TECHNIQUE = "Coq proof by induction over the value-space tree (all nestings, shapes, real/complex leaves, any commutative ring): every space is K^size via flatten/unflatten and the operations are the coordinate operations; exact correspondence of the model with autograd's VSpace classes"
+TECHNIQUE = "Coq proof by induction over the value-space tree (all nestings, shapes, real/complex leaves, any commutative ring): every space is K^size via flatten/unflatten and the operations are the coordinate operations; exact correspondence of the model with autograd's VSpace classes; leaf operations proved equal to definitions translated from core.VSpace / numpy_vspaces on every run (gen/GenVSpace.v)"
 DESIGN_REF = "DESIGN.md 4.13"
 LEVEL_TEXT = ("Theorems for all container nestings, shapes (incl. () and size 0), real and complex leaves, over any "
               "commutative ring: identity, commutativity, associativity, distributivity, symmetric bilinear inner "
